@@ -1350,6 +1350,13 @@ func (mgr *Manager) UpdateTag(name string, operation UpdateTagOperation) error {
 				// update mark streamid tag matches without parsing the definition again
 				// this is a bit hacky but it is much faster than parsing the definition of long mark tags again
 				if len(info.markTagAddStreams) != 0 {
+					// a definition that is a plain list of ids is extended as text; any other one by "(...) or id:..."
+					plainList := strings.HasPrefix(newTag.definition, "id:") && strings.Trim(newTag.definition[3:], "0123456789,") == ""
+					if !plainList && newTag.definition != "id:-1" {
+						if _, err := query.Parse(fmt.Sprintf("(%s) or id:0", newTag.definition)); err != nil {
+							return fmt.Errorf("cannot add streams to the definition %q of tag %q", newTag.definition, name)
+						}
+					}
 					b := strings.Builder{}
 					b.WriteString("id:")
 					for _, s := range info.markTagAddStreams {
@@ -1373,8 +1380,11 @@ func (mgr *Manager) UpdateTag(name string, operation UpdateTagOperation) error {
 						}
 						if newTag.definition == "id:-1" {
 							newTag.definition = markQuery
-						} else {
+						} else if plainList {
 							newTag.definition = fmt.Sprintf("%s,%s", newTag.definition, markQuery[3:])
+						} else {
+							// appending to the text would change its last filter only
+							newTag.definition = fmt.Sprintf("(%s) or %s", newTag.definition, markQuery)
 						}
 					}
 				}
